@@ -63,6 +63,16 @@ XML_BAD = "<doc><item>a</item><item>b</doc>"
 XML_PI = "<?xml-stylesheet type='text/xsl' href='small.xsl'?>" + XML_SMALL
 
 DATA_FILES = {"small.xml": XML_SMALL, "small.xsl": XSL_SMALL, "pi.xml": XML_PI}
+CORPUS = os.path.join(ROOT, "corpus", "c19")        # stylesheets that xsl:import / xsl:include each other (need files: href is relative)
+
+
+def write_data(wd):
+    d = os.path.join(wd, "data")
+    os.makedirs(d, exist_ok=True)
+    for n, t in DATA_FILES.items():
+        open(os.path.join(d, n), "w").write(t)
+    for n in sorted(os.listdir(CORPUS)):
+        open(os.path.join(d, n), "w").write(open(os.path.join(CORPUS, n)).read())
 
 CREATE, DESTROY = {"api": "create"}, {"api": "destroy"}
 
@@ -95,12 +105,20 @@ SCENARIOS = collections.OrderedDict([
     ("pi-stylesheet", ("inited", [CREATE, T({"file": "pi.xml"}, {"pi": True}, "callback"), DESTROY], "thorough")),
     ("reuse", ("inited", [CREATE, T({"text": XML_SMALL}, {"text": XSL_MESSAGE}), T({"text": XML_SMALL}, {"text": XSL_SMALL}),
                           T({"text": XML_RICH}, {"text": XSL_SMALL}, "callback"), DESTROY], "thorough")),
+    # xsl:import / xsl:include: the imported Stylesheet is a separately owned object while it is being compiled
+    ("import", ("inited", [CREATE, {"api": "compile", "xsl": {"file": "imp_main.xsl"}, "as": "s"},
+                           T({"file": "in.xml"}, {"compiled": "s"}), DESTROY], "quick")),
+    ("import-bad-xpath", ("inited", [CREATE, {"api": "compile", "xsl": {"file": "imp_main_badxpath.xsl"}, "as": "s"}, DESTROY], "quick")),
+    ("import-bad-element", ("inited", [CREATE, T({"file": "in.xml"}, {"file": "imp_main_badelem.xsl"}), DESTROY], "thorough")),
+    ("include", ("inited", [CREATE, {"api": "compile", "xsl": {"file": "inc_main.xsl"}, "as": "s"},
+                            T({"file": "in.xml"}, {"compiled": "s"}), DESTROY], "thorough")),
+    ("include-bad-xpath", ("inited", [CREATE, {"api": "compile", "xsl": {"file": "inc_main_badxpath.xsl"}, "as": "s"}, DESTROY], "thorough")),
     ("init-terminate", ("raw", [{"api": "initialize"}, {"api": "terminate"}], "thorough")),
     ("shared-manager", ("raw", [{"api": "initialize"}, CREATE, T({"text": XML_SMALL}, {"text": XSL_SMALL}), DESTROY, {"api": "terminate"}], "thorough")),
 ])
-QUICK_STRIDE = {"files": 9, "fail-xpath": 11, "rich": 17, "shared-manager": 53, "init-terminate": 59, "reuse": 23}   # sampled in quick
-ASAN_QUICK = {"streams": 7, "compiled-parsed": 13, "fail-message": 11}          # scenario -> stride of k under ASan (quick)
-ASAN_THOROUGH = {"streams": 1, "compiled-parsed": 1, "fail-message": 1, "rich": 3, "shared-manager": 7, "fail-parse": 3, "fail-compile": 3}
+QUICK_STRIDE = {"import-bad-element": 5, "include": 7, "include-bad-xpath": 7, "files": 9, "fail-xpath": 11, "rich": 17, "shared-manager": 53, "init-terminate": 59, "reuse": 23}   # sampled in quick
+ASAN_QUICK = {"streams": 7, "compiled-parsed": 13, "fail-message": 11, "import-bad-xpath": 5}          # scenario -> stride of k under ASan (quick)
+ASAN_THOROUGH = {"import": 3, "import-bad-xpath": 1, "import-bad-element": 3, "include-bad-xpath": 3, "streams": 1, "compiled-parsed": 1, "fail-message": 1, "rich": 3, "shared-manager": 7, "fail-parse": 3, "fail-compile": 3}
 
 USE_POOL = [T({"text": XML_SMALL}, {"text": XSL_SMALL}),
             {"api": "compile", "xsl": {"text": XSL_SMALL}, "as": "s"},
@@ -263,6 +281,57 @@ def validate_files(paths, tag, wd, shards=None):
     return rejects, gen
 
 
+# ------------------------------------------------------------------------------ TV self-test
+def tv_selftest(wd):
+    """negative controls: the trace spec must accept a balanced execution and reject each kind of misbehaviour
+    (guards against a vacuous Trace_C19 / MemMgr); raises Infra otherwise"""
+    probe = {"e": "Probe", "code": 0, "exception": "none", "out": "<out n=\"2\"><i>1:a</i><i>2:b</i><k>b</k></out>", "outstanding": 0}
+
+    def ex(fail_at=0, use=None, ret="ok", destroy=None, extra=None, probe_ev=None, exit_code=0, reclaimed=0):
+        ev = [{"e": "Reset", "scenario": "selftest"}, {"e": "Start", "failAt": fail_at, "procInit": True},
+              {"e": "Call", "api": "create"}, {"e": "Mem", "ops": [[1, 1, 3]]},
+              {"e": "ApiReturn", "api": "create", "status": "ok", "code": 0, "exception": "none"},
+              {"e": "Call", "api": "transform"}]
+        ev += use if use is not None else [{"e": "Mem", "ops": [[1, 4, 5], [0, 5, 4]]}]
+        ev += [{"e": "ApiReturn", "api": "transform", "status": ret, "code": 0, "exception": "none"}]
+        ev += extra or []
+        ev += [{"e": "Call", "api": "destroy"}] + (destroy if destroy is not None else [{"e": "Mem", "ops": [[0, 1, 2, 3]]}])
+        ev += [{"e": "DestroyTransformer"}, {"e": "DiscardManager", "reclaimed": reclaimed, "requests": 5}, probe_ev or probe, {"e": "Done"},
+               {"e": "Exit", "code": exit_code, "signal": 0, "stderr": ""}]
+        return ev
+    term = {"e": "Terminate", "kind": "std::terminate", "exception": "x", "frames": []}
+    cases = [
+        ("", ex()),
+        ("", ex(fail_at=5, use=[{"e": "Mem", "ops": [[1, 4, 4]]}, {"e": "Fail", "k": 5, "size": 8, "frames": []}], ret="exception",
+                destroy=[{"e": "Mem", "ops": [[0, 1, 2, 3]]}], reclaimed=1)),                                      # leak after a refusal: allowed
+        ("DOUBLE-FREE", ex(use=[{"e": "Mem", "ops": [[1, 4, 5], [0, 5, 4, 4]]}])),
+        ("DOUBLE-FREE", ex(destroy=[{"e": "Mem", "ops": [[0, 1, 2, 3]]}, {"e": "Mem", "ops": [[0, 2]]}])),
+        ("DOUBLE-FREE", ex(use=[{"e": "Mem", "ops": [[1, 4, 5], [0, 5, 4]]}], destroy=[{"e": "Mem", "ops": [[0, 1, 2, 3, 5]]}])),
+        ("FOREIGN-FREE", ex(use=[{"e": "Mem", "ops": [[1, 4, 5], [0, 5, 0, 4]]}])),
+        ("LEAK", ex(destroy=[{"e": "Mem", "ops": [[0, 1, 2]]}], reclaimed=1)),
+        ("TERMINATE", ex(use=[{"e": "Mem", "ops": [[1, 4, 5]]}, term])),
+        ("NOT-SURFACED", ex(fail_at=5, use=[{"e": "Mem", "ops": [[1, 4, 4]]}, {"e": "Fail", "k": 5, "size": 8, "frames": []}, {"e": "Mem", "ops": [[0, 4]]}], ret="ok")),
+        ("PROBE", ex(probe_ev=dict(probe, out="<out/>"))),
+        ("PROBE", ex(probe_ev=dict(probe, code=-1))),
+        ("EXIT", ex(exit_code=1)),
+        ("PROTOCOL", ex(extra=[{"e": "Mem", "ops": [[1, 6, 6]]}])),                                               # allocate() outside any call
+    ]
+    paths = []
+    for i, (_, ev) in enumerate(cases):
+        p = os.path.join(wd, "selftest-%d.nd" % i)
+        vlib.write_ndjson(p, ev)
+        paths.append(p)
+    rej, _ = validate_files(paths, "selftest", wd, shards=1)
+    bad = []
+    for i, (want, _) in enumerate(cases):
+        got = rej[i]["msg"].split(":")[0] if i in rej else ""
+        if got != want:
+            bad.append("case %d: expected %r, trace spec said %r" % (i, want or "accepted", rej.get(i, {}).get("msg", "accepted")[:200]))
+    if bad:
+        raise vlib.Infra("Trace_C19 self-test failed: " + "; ".join(bad))
+    return len(cases)
+
+
 # ---------------------------------------------------------------------------- call-site signatures
 _dem_cache = {}
 
@@ -351,10 +420,9 @@ def classify(events, rj):
 def run(res, tier, seed):
     quick = tier == "quick"
     wd = vlib.workdir("c19-%d" % os.getpid())
-    os.makedirs(os.path.join(wd, "data"))
-    for n, t in DATA_FILES.items():
-        open(os.path.join(wd, "data", n), "w").write(t)
+    write_data(wd)
     t0 = time.time()
+    res.notes["tv_selftest_cases"] = tv_selftest(wd)
     run_mc(res, wd, quick)
     scen = collections.OrderedDict((k, (v[0], v[1])) for k, v in SCENARIOS.items())
     full_in = {k: v[2] for k, v in SCENARIOS.items()}
@@ -556,9 +624,7 @@ def replay(path):
     wd = vlib.workdir("c19-replay-%d" % os.getpid())
     c = events[0].get("case") if events else None
     if c:
-        os.makedirs(os.path.join(wd, "data"))
-        for n, t in DATA_FILES.items():
-            open(os.path.join(wd, "data", n), "w").write(t)
+        write_data(wd)
         build = events[0].get("build", "hooks")
         mode = "inited" if events[1].get("procInit", True) else "raw"
         exe = vlib.build_harness("c19", build, **HFLAGS)
